@@ -193,9 +193,10 @@ def log_path(base: str, algo: str, inst: str, seed: int) -> str:
 
 @st.composite
 def bp_cases(draw: Any) -> dict:
-    if draw(st.integers(0, 2)) == 0:
+    if draw(st.integers(0, 2)) != 0:
         gc = draw(gen_bp.instances(
-            classes=("tiny", "small", "medium", "int8_edge"), max_types=5,
+            classes=("tiny", "small", "small", "medium", "medium",
+                     "int8_edge", "int8_edge", "nitems_edge"), max_types=5,
             max_items=10))
         if sum(it[2] for it in gc["items"]) < 2:
             gc["items"][0][2] = 2  # moptipy's search space needs >= 2 items
@@ -239,7 +240,8 @@ def check_bp(ctx: Ctx, case: dict) -> None:
         return setup(inst, enc_cls, obj_cls)
 
     space = PackingSpace(inst)
-    algo = str(make()._algorithm) if hasattr(make(), "_algorithm") else "algo"
+    ex0 = sut(what + " set-up", make)  # must work for every valid instance
+    algo = str(ex0._algorithm) if hasattr(ex0, "_algorithm") else "algo"
     with TempDir() as tmp:
         f1 = log_path(tmp, algo, inst.name, case["seed"])
         r1 = sut(what + " run", run_once, make, case["seed"],
@@ -766,13 +768,13 @@ SUBS = {"bp": check_bp, "tsp": check_tsp, "ttp": check_ttp,
 
 
 def run(ctx: Ctx) -> None:
-    ctx.given("bp", bp_cases(), check_bp, quick=60, thorough=16 * 60,
+    ctx.given("bp", bp_cases(), check_bp, quick=360, thorough=16 * 400,
               shrink=False)
-    ctx.given("tsp", tsp_cases(), check_tsp, quick=36, thorough=16 * 40,
+    ctx.given("tsp", tsp_cases(), check_tsp, quick=120, thorough=16 * 150,
               shrink=False)
-    ctx.given("qap", qap_cases(), check_qap, quick=24, thorough=16 * 20,
+    ctx.given("qap", qap_cases(), check_qap, quick=60, thorough=16 * 80,
               shrink=False)
-    ctx.given("ttp", ttp_cases(), check_ttp, quick=30, thorough=16 * 30,
+    ctx.given("ttp", ttp_cases(), check_ttp, quick=90, thorough=16 * 100,
               shrink=False)
     ctx.given("instgen", instgen_cases(), check_instgen, quick=6,
               thorough=16 * 8, shrink=False)
